@@ -19,7 +19,7 @@ with core.BuildLock():
     print(out[-1500:])
     if rc:
         print('WARNING: some Coq files did not compile (left to the checks)')
-    ok, msg = core.build_model()
+    ok, msg = core.build_model()[:2]
     if not ok:
         print('WARNING: model driver not built (left to the checks):', msg[-500:])
 print('setup ok')
